@@ -89,13 +89,16 @@ type Parameters struct {
 //
 // See [rlwe.NewParametersFromLiteral] for default values of the other optional fields.
 func NewParametersFromLiteral(pl ParametersLiteral) (Parameters, error) {
+
+	// Checked before the scale 2^LogDefaultScale is formed: above 1023 it is
+	// not a finite number any more and forming it panics.
+	if pl.LogDefaultScale > 128 || pl.LogDefaultScale < 0 {
+		return Parameters{}, fmt.Errorf("cannot NewParametersFromLiteral: LogDefaultScale=%d > 128 or < 0", pl.LogDefaultScale)
+	}
+
 	rlweParams, err := rlwe.NewParametersFromLiteral(pl.GetRLWEParametersLiteral())
 	if err != nil {
 		return Parameters{}, fmt.Errorf("cannot NewParametersFromLiteral: %w", err)
-	}
-
-	if pl.LogDefaultScale > 128 {
-		return Parameters{}, fmt.Errorf("cannot NewParametersFromLiteral: LogDefaultScale=%d > 128 or < 0", pl.LogDefaultScale)
 	}
 
 	return Parameters{rlweParams}, nil
